@@ -167,34 +167,23 @@ theorem append_inv (h : Heap) (dst src : Buf) (self : Bool) (g : Nat) (hd : BufO
       simp only [Bool.and_eq_true, Bool.or_eq_true, decide_eq_true_eq, beq_iff_eq] at hg1
       have e1 : Ext h (h ++ [(List.range dst.len).map (fun i => (cell h dst.blk (dst.off + i)).getD 0) ++ List.replicate (g - dst.len) 0]) :=
         ext_push h _
-      have hx := xferLoop_ext some
-        (if self = true then { dst with blk := h.length, off := 0, len := dst.len + src.len, cap := g } else src)
-        { dst with blk := h.length, off := 0, len := dst.len + src.len, cap := g } dst.len (List.range src.len)
+      have hx := ext_storeList
         (h ++ [(List.range dst.len).map (fun i => (cell h dst.blk (dst.off + i)).getD 0) ++ List.replicate (g - dst.len) 0])
-      revert hx
-      cases xferLoop some _ _ dst.len (List.range src.len) _ with
-      | ok h2 u =>
-        intro hx
-        have hal : alignCap dst.ch g = g := C03.alignCap_aligned _ _ hg1.2
-        simp only [Res.bind, hal]
-        refine ⟨e1.trans hx, ?_⟩
-        refine BufOK.ext hx ⟨⟨by simp; omega, ?_⟩, by simpa using hg1.2, by simpa using hg2⟩
-        exact ⟨(List.range dst.len).map (fun i => (cell h dst.blk (dst.off + i)).getD 0) ++ List.replicate (g - dst.len) 0, by simp, by simp; omega⟩
-      | panic h2 p => intro hx; exact e1.trans hx
-      | unspec => intro _; trivial
+        h.length (0 + dst.len)
+        (Buf.firstCells (h ++ [(List.range dst.len).map (fun i => (cell h dst.blk (dst.off + i)).getD 0) ++ List.replicate (g - dst.len) 0])
+          (if self = true then { dst with blk := h.length, off := 0, len := dst.len + src.len, cap := g } else src) src.len)
+      have hal : alignCap dst.ch g = g := C03.alignCap_aligned _ _ hg1.2
+      simp only [hal]
+      refine ⟨e1.trans hx, ?_⟩
+      refine BufOK.ext hx ⟨⟨by simp; omega, ?_⟩, by simpa using hg1.2, by simpa using hg2⟩
+      exact ⟨(List.range dst.len).map (fun i => (cell h dst.blk (dst.off + i)).getD 0) ++ List.replicate (g - dst.len) 0, by simp, by simp; omega⟩
     · simp only [hgrow, if_false]
-      have hx := xferLoop_ext some (if self = true then { dst with len := dst.len + src.len } else src)
-        { dst with len := dst.len + src.len } dst.len (List.range src.len) h
-      revert hx
-      cases xferLoop some _ _ dst.len (List.range src.len) h with
-      | ok h2 u =>
-        intro hx
-        have hal : alignCap dst.ch dst.cap = dst.cap := C03.alignCap_aligned _ _ hd.2.1
-        simp only [Res.bind, hal]
-        refine ⟨hx, ?_⟩
-        exact BufOK.ext hx ⟨⟨by simp; omega, hd.1.2⟩, hd.2⟩
-      | panic h2 p => intro hx; exact hx
-      | unspec => intro _; trivial
+      have hx := ext_storeList h dst.blk (dst.off + dst.len)
+        (Buf.firstCells h (if self = true then { dst with len := dst.len + src.len } else src) src.len)
+      have hal : alignCap dst.ch dst.cap = dst.cap := C03.alignCap_aligned _ _ hd.2.1
+      simp only [hal]
+      refine ⟨hx, ?_⟩
+      exact BufOK.ext hx ⟨⟨by simp; omega, hd.1.2⟩, hd.2⟩
 
 /-- **the invariants are preserved by every operation** -/
 theorem inv_step (s : St) (op : Op) (hI : Inv s) : Inv (step s op) := by
